@@ -231,7 +231,7 @@ func checkC02(p *Prog, c *Check) {
 			if spec.will == 1 {
 				wp = will
 			}
-			if spec.will == 3 {
+			if spec.will == 3 || spec.will == 1 && spec.bias > 0 {
 				wp, _ = p.willFor(spec)
 			}
 			if spec.will == 2 {
